@@ -211,6 +211,15 @@ class Gen(object):
     def _shrinking_inv(self, st, u, k):
         """An inventory around the current usage of (u, k): just enough, just
         too little."""
+        cur = st['inv'].get(u, {}).get(k)
+        if cur and self.rnd.random() < 0.25:
+            # the same capacity, one unit constraint tightened
+            i = dict(cur)
+            which = self.rnd.choice(['max_unit', 'min_unit', 'step_size'])
+            i[which] = self.rnd.choice([1, 2] if which == 'max_unit' else [2, 3])
+            if i['min_unit'] > i['max_unit']:
+                i['max_unit'] = i['min_unit']
+            return i
         i = self.inv()
         used = self.used(st, u, k)
         if used and self.rnd.random() < 0.7:
